@@ -184,7 +184,11 @@ class SqlalchemyRender:
                     raise NotImplementedError(f'Required list argument for: {op}')
 
             method = methods.get(op)
-            if method is not None:
+            if op == '/':
+                # keep the division operator of the statement: sqlalchemy's own "/" is always true division
+                # (it renders "a / (b + 0.0)" or a cast), which changes the result of integer division
+                col = arg0.op('/', precedence=sa.sql.operators._PRECEDENCE[sa.sql.operators.truediv])(arg1)
+            elif method is not None:
                 sa_op = getattr(arg0, method)
 
                 col = sa_op(arg1)
